@@ -132,7 +132,7 @@ func (p *Path) armTaken(sel *ssa.Select) int {
 				all = false
 			}
 		}
-		if all && n >= 1 {
+		if all && n >= 1 && !neg[n-1] {
 			return n - 1
 		}
 	} else {
